@@ -16,11 +16,16 @@ GENERIC_BOUND_KINDS = {
 }
 
 
+GENERIC_OWNER_KINDS = {'Geometric': ['u32']}
+
+
 def generic_kinds(fi):
     """for an impl<X: Bound> block: which concrete kinds to instantiate"""
     gen = fi.generics or []
     if not gen:
         return None
+    if fi.owner in GENERIC_OWNER_KINDS and 'X' in gen:
+        return GENERIC_OWNER_KINDS[fi.owner]
     s = ' '.join(gen)
     for b, ks in GENERIC_BOUND_KINDS.items():
         if b in s:
@@ -159,9 +164,12 @@ def request(self, owner, name, kind, hint=None):
     kdep = fi.trait is not None and is_kind_dependent(fi)
     parts = targ_parts(fi)
     use_kind = kind if kdep else (parts[0] if (parts and kind_class(parts[0])) else None)
-    if kdep and (kind is None):
-        ks = fi.kinds or generic_kinds(fi) or ['f64']
-        use_kind = ks[0].strip()
+    if kdep:
+        ks = [k.strip() for k in (fi.kinds or generic_kinds(fi) or [])]
+        if kind is None:
+            use_kind = (ks or ['f64'])[0]
+        elif ks and kind_class(kind) not in {kind_class(k) for k in ks}:
+            use_kind = 'f64' if 'f64' in ks else ks[0]
     suffix = self.fn_suffix(fi, use_kind)
     lean = (f'{owner}.{name}{suffix}' if owner else f'{lname(name)}')
     if not owner and sum(1 for d in self.reg.free_by_file.values() if name in d) > 1:
@@ -274,7 +282,11 @@ def translate_fn(self, fi, lean, kind):
     src = f'{fi.file}: {"impl " + fi.trait + ("<" + fi.trait_arg + ">" if fi.trait_arg else "") + " for " if fi.trait else ""}{owner or "fn"}::{fn[1]}' + (f' [{kind}]' if kind else '')
     return {'lean': lean, 'sig': sig, 'body': term, 'ptys': ptys, 'rty': rty, 'src': src, 'owner': owner,
             'name': fn[1], 'kind': kind, 'has_self': has_self, 'mutself': ctx.mutself, 'file': fi.file,
-            'default': getattr(fi, 'is_default', False), 'trait': fi.trait}
+            'default': getattr(fi, 'is_default', False), 'trait': fi.trait,
+            'rparams': [(p[0][1] if p[0] != 'self' else 'self', p[1]) for p in params],
+            'rret': fn[3], 'pub': bool(fn[7]) if len(fn) > 7 else (fi.trait is not None or not owner),
+            'trait_arg': fi.trait_arg, 'kinds_all': [k.strip() for k in (fi.kinds or generic_kinds(fi) or [])],
+            'generics': generic_names(fi)}
 
 
 for _f in (resolve_method, fn_suffix, request, translate_fn):
